@@ -965,12 +965,14 @@ func keySetShape(keys []KeyEntry) string {
 
 var prop = vkit.Prop[Case]{
 	ID: "C02",
-	Rule: "cases = verifier kind (rp.VerifyIDToken with static and remote key set, op.VerifyAccessToken / VerifyIDTokenHint over op.OpenIDKeySet and over the verifiers + default key set of a provider built by op.NewProvider, id_token_hint and request object through the authorize endpoint of both routers, " +
+	Rule: "cases = verifier kind (rp.VerifyIDToken with static and remote key set, op.VerifyAccessToken / VerifyIDTokenHint over op.OpenIDKeySet and over the verifiers of a provider built by op.NewProvider, id_token_hint and request object through the authorize endpoint of both routers, " +
 		"op.VerifyJWTAssertion with per-client and published keys, op.ParseRequestObject, oidc.FindMatchingKey) x key set (0-4 keys, kid present/absent/duplicate/prefix-related, use sig/enc/empty, RSA/EC/Ed mixed) x allowed-alg list (default, explicit, misconfigured with HS*/none) " +
 		"x genuinely signed token (trusted / other key same kid / wrong kid / no kid / embedded jwk) with 0-2 manipulations (unsigned, alg=none, HS with public key, header/payload/signature tampering, signature of another payload, re-encoding, truncation, extra segment, whitespace, JSON flattened/general, two signatures, dotted unprotected header smuggling an evil payload); " +
 		"60% of the token cases continue with 1-3 further calls on the SAME verifier / key set / provider / storage instance: before a call the served key set may change (remove, add, replace key under the same kid, change kid / use, clear, restore; per-client kinds: the registration of either client), the token is freshly signed (against the set in force or an earlier one) or derived from the genuinely signed token of an earlier call (same signature bytes: replayed, or 1-2 manipulations); every call is judged against the key set in force at that call " +
 		"(rp remote key set: rejection / acceptance demanded only if the set served now and the last two downloaded answers agree - its cache refresh is C13's subject). " +
-		"claims otherwise valid with fixed far time stamps (no clock). labels count calls. non-trivial = >=1 manipulation or >=2 candidate keys or >=2 calls (findkey: >=2 keys); distinct = (kind, router, manipulation set, key-set shape, allowed list, token alg/kid relation, verdict; per further call: key-set change, source call, manipulation set, key-set shape, alg, verdict)",
+		"provider kinds (prov-access, prov-hint, hint-http): the verification options of op.NewProvider are generated - none / WithAccessTokenKeySet / WithIDTokenHintKeySet / both (each custom set: 0-4 pool keys, disjoint from / overlapping with / equal to the set the storage publishes), WithSupportedAccessTokenSigningAlgorithms and WithSupportedIDTokenHintSigningAlgorithms each absent (library default) or a generated list, option order - and every verifier is judged against the key set and the algorithm list configured for IT (the storage's set / the default list when the option is absent), never the other verifier's; " +
+		"3/4 of the tokens relate to the set in force for the verifier, 1/4 to another set the provider knows (storage set while a custom one is configured, the other verifier's set), 1/8 use an algorithm only the other verifier's list allows; in a sequence 1/3 of the further calls go to the OTHER verifier of the same provider and key-set changes hit the set in force for the verifier called (1/6 of the provider cases keep the fixed option set of vkit.Build); " +
+		"claims otherwise valid with fixed far time stamps (no clock). labels count calls. non-trivial = >=1 manipulation or >=2 candidate keys or >=2 calls (findkey: >=2 keys); distinct = (kind, router, manipulation set, key-set shape, allowed list, token alg/kid relation, verdict, provider options (which key-set options, shapes of the custom sets, both algorithm lists, order); per further call: key-set change, source call, manipulation set, key-set shape, alg, verdict, verifier called)",
 	Gen: genCase,
 	Run: run,
 }
